@@ -1,11 +1,152 @@
-(* C51 Pauli algebra agrees with matrix algebra. *)
+(* C51 Pauli algebra agrees with matrix algebra.
+   Statements only; every proof is `exact <lemma>` from Disc/PauliAlgProofs.v.
+   Coefficients: Gaussian integers GZ = Z*Z (Gaussian dyadic rationals over a common power-of-two denominator).
+   Matrices: functions of row bits and column bits (first wire of the wire order = most significant bit). *)
 From Coq Require Import List ZArith Bool.
 From PLV Require Import Disc.PauliAlgModel Disc.PauliAlgProofs.
 Import ListNotations.
 Open Scope Z_scope.
 
+(* all 16 single-qubit products: (matrix of p)(matrix of q) = i^k * matrix of r, where mul_map[p][q] = (i^k, r) *)
 Theorem table_ok : forall p q a b,
   csum (map (fun k => cmul (mat1 p a k) (mat1 q k b)) [false; true]) =
   cmul (iph (fst (mul1 p q))) (mat1 (snd (mul1 p q)) a b).
 Proof. exact table_ok_l. Qed.
 Print Assumptions table_ok.
+
+(* Kronecker mixed-product, all n: for full words (one letter per wire) the product of the Kronecker
+   matrices is the phase times the Kronecker matrix of the wire-wise product *)
+Theorem full_word_mul_hom : forall l1 l2 r c,
+  length l2 = length l1 -> length r = length l1 -> length c = length l1 ->
+  mmul (length l1) (kmat l1) (kmat l2) r c = cmul (iph (fst (fmul l1 l2))) (kmat (snd (fmul l1 l2)) r c).
+Proof. exact full_mul_hom_l. Qed.
+Print Assumptions full_word_mul_hom.
+
+(* PauliWord._matmul (dict merge with the base/iterator swap) is the wire-wise product with phases multiplied,
+   for every duplicate-free wire order containing the wires; the result is again canonical *)
+Theorem word_mul_algebraic : forall a b order,
+  wf a -> wf b -> NoDup order -> covered order a -> covered order b ->
+  wf (snd (wmul a b)) /\
+  (forall x, lookup (snd (wmul a b)) x = snd (mul1 (lookup a x) (lookup b x))) /\
+  expand order (snd (wmul a b)) = snd (fmul (expand order a) (expand order b)) /\
+  fst (wmul a b) = fst (fmul (expand order a) (expand order b)).
+Proof. exact wmul_algebraic_l. Qed.
+Print Assumptions word_mul_algebraic.
+
+(* mat(w1 @ w2) = mat(w1) mat(w2), all words, all n, every wire order *)
+Theorem word_mul_hom : forall a b order r c,
+  wf a -> wf b -> NoDup order -> covered order a -> covered order b ->
+  length r = length order -> length c = length order ->
+  mmul (length order) (wmat order a) (wmat order b) r c =
+  cmul (iph (fst (wmul a b))) (wmat order (snd (wmul a b)) r c).
+Proof. exact word_mul_hom_l. Qed.
+Print Assumptions word_mul_hom.
+
+(* sums and scalar multiples, coefficient level (all sentences, no side condition) *)
+Theorem add_coeff : forall a b u, coeff (sadd a b) u = cadd (coeff a u) (coeff b u).
+Proof. exact coeff_sadd. Qed.
+Print Assumptions add_coeff.
+
+Theorem add_comm_assoc : forall a b c u,
+  coeff (sadd a b) u = coeff (sadd b a) u /\
+  coeff (sadd a (sadd b c)) u = coeff (sadd (sadd a b) c) u.
+Proof. intros a b c u; rewrite !coeff_sadd; split; [apply cadd_comm | apply cadd_assoc]. Qed.
+Print Assumptions add_comm_assoc.
+
+Theorem scalar_laws : forall x y a b u,
+  coeff (smul x a) u = cmul x (coeff a u) /\
+  coeff (smul x (sadd a b)) u = coeff (sadd (smul x a) (smul x b)) u /\
+  coeff (smul x (smul y a)) u = coeff (smul (cmul x y) a) u /\
+  coeff (ssub a b) u = csub (coeff a u) (coeff b u).
+Proof.
+  intros x y a b u; rewrite ?coeff_smul, ?coeff_sadd, ?coeff_smul.
+  repeat split; [apply cmul_add_r | apply cmul_assoc | apply coeff_ssub].
+Qed.
+Print Assumptions scalar_laws.
+
+(* sentence @ sentence realises the bilinear extension of word multiplication ... *)
+Theorem sentence_mul_is_bilinear_extension : forall a b u, coeff (smatmul a b) u = bil (delta u) a b.
+Proof. exact coeff_smatmul. Qed.
+Print Assumptions sentence_mul_is_bilinear_extension.
+
+(* ... hence distributes over + and commutes with scalars, on both sides *)
+Theorem sentence_mul_distributes : forall a b c x u,
+  coeff (smatmul (sadd a b) c) u = cadd (coeff (smatmul a c) u) (coeff (smatmul b c) u) /\
+  coeff (smatmul c (sadd a b)) u = cadd (coeff (smatmul c a) u) (coeff (smatmul c b) u) /\
+  coeff (smatmul (smul x a) b) u = cmul x (coeff (smatmul a b) u) /\
+  coeff (smatmul a (smul x b)) u = cmul x (coeff (smatmul a b) u).
+Proof.
+  intros a b c x u; repeat split;
+    [apply smatmul_distr_l | apply smatmul_distr_r | apply smatmul_smul_l | apply smatmul_smul_r].
+Qed.
+Print Assumptions sentence_mul_distributes.
+
+(* matrices: mat(a+b) = mat a + mat b, mat(x*a) = x * mat a (all sentences, any wire order) *)
+Theorem sentence_add_scalar_mat_hom : forall order a b x r c,
+  smat order (sadd a b) r c = cadd (smat order a r c) (smat order b r c) /\
+  smat order (smul x a) r c = cmul x (smat order a r c).
+Proof. intros; split; [apply smat_sadd | apply smat_smul]. Qed.
+Print Assumptions sentence_add_scalar_mat_hom.
+
+(* mat(a @ b) = mat(a) mat(b) for sentences of canonical words, all n, every wire order containing the wires *)
+Theorem sentence_mul_mat_hom : forall order a b r c,
+  NoDup order -> sent_wf order a -> sent_wf order b ->
+  length r = length order -> length c = length order ->
+  smat order (smatmul a b) r c = mmul (length order) (smat order a) (smat order b) r c.
+Proof. exact smatmul_mat_hom_l. Qed.
+Print Assumptions sentence_mul_mat_hom.
+
+(* commutes_with = parity of the number of wires where both words act with different letters *)
+Theorem commutes_iff_even_overlap : forall a b, wf a -> commutes a b = Z.even (overlap a b).
+Proof. exact commutes_even_l. Qed.
+Print Assumptions commutes_iff_even_overlap.
+
+(* ... and that parity really decides commutation: b@a has the same word as a@b, with the same phase iff
+   commutes_with says so (opposite phase otherwise) *)
+Theorem commutes_decides_products : forall a b, wf a -> wf b ->
+  snd (wmul b a) = snd (wmul a b) /\
+  iph (fst (wmul b a)) = cmul (if commutes a b then c1 else cneg c1) (iph (fst (wmul a b))).
+Proof. intros a b Wa Wb; split; [apply wmul_comm_word | apply wmul_comm_phase]; assumption. Qed.
+Print Assumptions commutes_decides_products.
+
+(* word commutator (_commutator) as a formal combination = a@b - b@a, under every linear functional h *)
+Theorem word_commutator_is_ab_minus_ba : forall a b (h : word -> GZ), wf a -> wf b ->
+  cmul (snd (wcomm a b)) (h (fst (wcomm a b))) =
+  csub (cmul (iph (fst (wmul a b))) (h (snd (wmul a b)))) (cmul (iph (fst (wmul b a))) (h (snd (wmul b a)))).
+Proof. exact wcomm_spec. Qed.
+Print Assumptions word_commutator_is_ab_minus_ba.
+
+(* trace of the matrix = 2^n * coefficient of the identity word; trace() returns that coefficient *)
+Theorem trace_is_identity_coeff : forall order s, sent_wf order s ->
+  mtrace (length order) (smat order s) = cmul (cpow2 (length order)) (coeff s []).
+Proof. exact trace_l. Qed.
+Print Assumptions trace_is_identity_coeff.
+
+Theorem trace_method_is_identity_coeff : forall s, NoDup (map fst s) -> strace s = coeff s [].
+Proof. exact strace_coeff. Qed.
+Print Assumptions trace_method_is_identity_coeff.
+
+(* PauliWord(mapping) yields canonical words, so the hypotheses `wf` above hold for every constructed word *)
+Theorem constructed_words_canonical : forall raw, NoDup (map fst raw) -> wf (mkword raw).
+Proof. exact mkword_wf. Qed.
+Print Assumptions constructed_words_canonical.
+
+(* sentence-level commutator: only the word-level statement above is proved; the lifting of
+   PauliSentence.commutator to  a@b - b@a  at the coefficient level is tied by correspondence only. *)
+
+(* non-vacuity: concrete canonical words on a concrete wire order; X(0)Y(1) @ X(1)Z(2) = -i X(0)Z(1)Z(2) *)
+Example hyps_satisfiable :
+  let a := mkword [(1, PY); (0, PX); (5, PI)] in
+  let b := mkword [(2, PZ); (1, PX)] in
+  wf a /\ wf b /\ NoDup [2; 0; 1] /\ covered [2; 0; 1] a /\ covered [2; 0; 1] b /\
+  wmul a b = (3, [(0, PX); (1, PZ); (2, PZ)]) /\ commutes a b = false /\ overlap a b = 1 /\
+  to_mat [0] [([(0, PY)], (1, 0))] = Some [[(0, 0); (0, -1)]; [(0, 1); (0, 0)]].
+Proof.
+  cbv zeta.
+  split; [vm_compute; intuition discriminate |].
+  split; [vm_compute; intuition discriminate |].
+  split; [repeat constructor; cbn; intuition discriminate |].
+  split; [intros i H; vm_compute in H; cbn; intuition |].
+  split; [intros i H; vm_compute in H; cbn; intuition |].
+  repeat split; reflexivity.
+Qed.
